@@ -503,32 +503,66 @@ pub fn outcome_class<T>(r: &Result<T, String>) -> String {
 
 /// All registered types in generator order: built-in type terms (six generated crates, so that
 /// their monomorphisation compiles in parallel) plus the derived corpus.
-#[cfg(not(feature = "full"))]
 pub fn registry() -> Vec<VT> {
-	subjects::registry::derived()
+	#[allow(unused_mut)]
+	let mut out: Vec<VT> = vec![];
+	#[cfg(feature = "builtin")]
+	{
+		let mut v: Vec<(usize, VT)> = vec![];
+		v.extend(reg0::types());
+		v.extend(reg1::types());
+		v.extend(reg2::types());
+		v.extend(reg3::types());
+		v.extend(reg4::types());
+		v.extend(reg5::types());
+		v.sort_by_key(|(i, _)| *i);
+		out.extend(v.into_iter().map(|(_, t)| t));
+	}
+	out.extend(subjects::registry::derived());
+	#[cfg(feature = "corpus")]
+	{
+		let mut d: Vec<(usize, VT)> = vec![];
+		d.extend(regd0::types());
+		d.extend(regd1::types());
+		d.extend(regd2::types());
+		d.extend(regd3::types());
+		d.extend(regd4::types());
+		d.extend(regd5::types());
+		d.sort_by_key(|(i, _)| *i);
+		out.extend(d.into_iter().map(|(_, t)| t));
+	}
+	out
 }
 
-#[cfg(feature = "full")]
-pub fn registry() -> Vec<VT> {
-	let mut v: Vec<(usize, VT)> = vec![];
-	v.extend(reg0::types());
-	v.extend(reg1::types());
-	v.extend(reg2::types());
-	v.extend(reg3::types());
-	v.extend(reg4::types());
-	v.extend(reg5::types());
-	v.sort_by_key(|(i, _)| *i);
-	let mut out: Vec<VT> = v.into_iter().map(|(_, t)| t).collect();
-	out.extend(subjects::registry::derived());
-	let mut d: Vec<(usize, VT)> = vec![];
-	d.extend(regd0::types());
-	d.extend(regd1::types());
-	d.extend(regd2::types());
-	d.extend(regd3::types());
-	d.extend(regd4::types());
-	d.extend(regd5::types());
-	d.sort_by_key(|(i, _)| *i);
-	out.extend(d.into_iter().map(|(_, t)| t));
+/// If the generated corpus of *valid* definitions did not compile against the current tree, the
+/// `check` script builds without it and names the build log here: (definition, error) pairs.
+pub fn corpus_rejections() -> Vec<(String, String)> {
+	let Ok(log) = std::env::var("VERIF_CORPUS_BUILD_LOG") else { return vec![] };
+	let Ok(text) = std::fs::read_to_string(&log) else { return vec![("(build log unreadable)".into(), log)] };
+	let mut out = vec![];
+	let lines: Vec<&str> = text.lines().collect();
+	for (i, l) in lines.iter().enumerate() {
+		if !l.starts_with("error") {
+			continue;
+		}
+		// `  --> regd3/src/lib.rs:729:10`
+		let loc = lines[i + 1..].iter().take(6).find(|x| x.trim_start().starts_with("-->") && x.contains("regd"));
+		let Some(loc) = loc else { continue };
+		let loc = loc.trim_start().trim_start_matches("-->").trim();
+		let mut parts = loc.split(':');
+		let (Some(file), Some(line)) = (parts.next(), parts.next()) else { continue };
+		let src = std::fs::read_to_string(format!("{}/harness/{}", verif_root(), file)).unwrap_or_default();
+		let n: usize = line.parse().unwrap_or(0);
+		// the item is the nearest `pub struct` / `pub enum` line at or above the reported line
+		let def = src.lines().take(n).collect::<Vec<_>>().into_iter().rev().find(|x| x.starts_with("pub struct") || x.starts_with("pub enum")).unwrap_or("").to_string();
+		out.push((def, l.to_string()));
+		if out.len() >= 8 {
+			break;
+		}
+	}
+	if out.is_empty() {
+		out.push(("(no definition identified)".into(), lines.iter().find(|l| l.starts_with("error")).unwrap_or(&"").to_string()));
+	}
 	out
 }
 
@@ -537,7 +571,14 @@ pub fn registry() -> Vec<VT> {
 pub fn spawn_worker(args: &[String]) -> (Option<i32>, Option<i32>, String) {
 	use std::os::unix::process::ExitStatusExt;
 	let exe = std::env::current_exe().expect("own path");
-	let out = std::process::Command::new(exe)
+	// coreutils `timeout` bounds a worker that does not come back (it is then killed like any
+	// other dying worker and attributed by the caller)
+	let limit = std::env::var("VERIF_WORKER_TIMEOUT_S").unwrap_or_else(|_| "1800".to_string());
+	let out = std::process::Command::new("timeout")
+		.arg("-s")
+		.arg("KILL")
+		.arg(limit)
+		.arg(exe)
 		.arg("--worker")
 		.args(args)
 		.stderr(std::process::Stdio::null())
